@@ -74,7 +74,11 @@ def cmd_eval(names, all_checks):
         if not os.path.exists(f"{d}/meta.json"): continue
         meta = json.load(open(f"{d}/meta.json"))
         prop = meta["property"]
-        r = sh(f"git -C /repo apply {d}/patch.diff")
+        # patch_rebased.diff: the same change ported by hand to a later /repo HEAD (the original stays for the record);
+        # otherwise the original patch, with reduced context if a later fix commit moved its surroundings
+        patch = f"{d}/patch_rebased.diff" if os.path.exists(f"{d}/patch_rebased.diff") else f"{d}/patch.diff"
+        r = sh(f"git -C /repo apply {patch}")
+        if r.returncode != 0: r = sh(f"git -C /repo apply -C1 {patch}")
         if r.returncode != 0: print(name, "patch does not apply:", r.stderr.strip()); continue
         try:
             detected, quiet, other = [], [], []
@@ -85,7 +89,7 @@ def cmd_eval(names, all_checks):
                 if rep: detected.append(p + (f" [{clause.group(1)}]" if clause else ""))
                 elif r.returncode == 0: quiet.append(p)
                 else: other.append(f"{p}: exit {r.returncode} {r.stderr.strip()[:200]}")
-            meta["evaluation"] = {"detected_by": detected, "quiet": quiet, "machinery": other, "all_checks": all_checks, "verif_head": sh("git -C /verif rev-parse --short HEAD").stdout.strip()}
+            meta["evaluation"] = {"repo_head": sh("git -C /repo rev-parse --short HEAD").stdout.strip(), "patch_used": os.path.basename(patch), "detected_by": detected, "quiet": quiet, "machinery": other, "all_checks": all_checks, "verif_head": sh("git -C /verif rev-parse --short HEAD").stdout.strip()}
             json.dump(meta, open(f"{d}/meta.json", "w"), indent=1)
             print(name, "property", prop, "DETECTED" if any(x.startswith(prop) for x in detected) else "MISSED", "| reported:", detected, "| machinery:", other, flush=True)
         finally:
